@@ -151,8 +151,8 @@ fn build_measured<X: Tree>(vals: &[X::T], path: u8) -> (X, usize) {
             }
             1 => X::from_vec(vals.to_vec()),
             2 => X::collect_(vals.to_vec()),
-            // an iterator without an exact size hint
-            _ => X::collect_(vals.iter().copied().filter(|_| true).collect::<Vec<_>>()),
+            // iterators whose size hint is unknown / a loose upper bound / a loose lower bound
+            k => X::collect_hinted(vals.to_vec(), k - 2),
         };
         let _ = qwt::verif_hooks::take_tie_report();
         t
@@ -196,7 +196,7 @@ fn run_tree<X: Tree>(ctx: &mut Ctx, prop: &str, gen: &Gen, vm: &str) {
             let levels = if X::QUAD { (bl / 2.0).ceil().max(1.0) } else { bl.max(1.0) };
             let bits_per_level = if X::QUAD { 2.0 } else { 1.0 };
             let bound = (1.0 + r + 0.01) * bits_per_level * n * levels + 8.0 * (C_LEVEL * levels + C0);
-            for path in 0..4u8 {
+            for path in 0..6u8 {
                 let (t, heap) = build_measured::<X>(&vals, path);
                 let bits = 8.0 * (heap + std::mem::size_of_val(&t)) as f64;
                 check_le(ctx, "retained bits", format!("construction path {path}: n={} max={} levels={}", vals.len(), m, levels), bits, bound);
@@ -217,6 +217,22 @@ fn run_tree<X: Tree>(ctx: &mut Ctx, prop: &str, gen: &Gen, vm: &str) {
             let (t, heap) = build_measured::<X>(&vals, 1);
             let bits = 8.0 * (heap + std::mem::size_of_val(&t)) as f64;
             check_le(ctx, "retained bits", format!("n={} H0={:.3} distinct={} max={} depth={}", vals.len(), h0, distinct, m, depth), bits, bound);
+            // the level data itself (the sizes of the levels are in the serialized form under the name `lens`): at most
+            // n*(H0+slack) bits, and never more than the plain tree's n * bits-per-level * levels
+            {
+                let lens: Option<Vec<u64>> = mc::fieldprobe::u64_seq_field(&t, "lens");
+                match lens {
+                    Some(l) => {
+                        let level_bits = l.iter().sum::<u64>() as f64 * if X::QUAD { 2.0 } else { 1.0 };
+                        ctx.count("level_data_measured");
+                        check_le(ctx, "level data bits vs n*(H0+slack)", format!("n={} H0={:.4} distinct={} max={} level sizes {:?}", vals.len(), h0, distinct, m, l), level_bits, n * (h0 + slack) + 1e-6 * n + 1.0);
+                        let blm = bitlen(m) as f64;
+                        let plain_bits = n * if X::QUAD { 2.0 * (blm / 2.0).ceil().max(1.0) } else { blm.max(1.0) };
+                        check_le(ctx, "level data bits vs plain tree", format!("n={} distinct={} max={} level sizes {:?}", vals.len(), distinct, m, l), level_bits, plain_bits);
+                    }
+                    None => ctx.count("level_sizes_not_in_serialized_form"),
+                }
+            }
             // never more level data than the plain tree over the same sequence
             fn plain_heap<P: Tree>(v: &[u128]) -> usize {
                 let vals: Vec<P::T> = v.iter().map(|&x| P::T::from_u128(x)).collect();
@@ -327,12 +343,13 @@ fn run_quad<X: QuadRS>(ctx: &mut Ctx, prop: &str, gen: &Gen) {
     ctx.note_input(&q, q.len() > 1000);
     let n = q.len() as f64;
     let r = 32.0 / X::BLOCK as f64;
-    for path in 0..4u8 {
+    for path in 0..7u8 {
         let (t, heap) = measured(|| match path {
             0 => X::new_u8(&q),
             1 => X::from(q.iter().copied().collect::<QVector>()),
             2 => X::collect_u64(&q),
-            _ => X::collect_filtered(&q),
+            3 => X::collect_filtered(&q),
+            k => X::collect_hinted(&q, k - 3),
         });
         match prop {
             "C14" => {
@@ -349,8 +366,12 @@ fn run_qvector(ctx: &mut Ctx, prop: &str, gen: &Gen) {
     let q: Vec<u8> = gen.abstract_seq().iter().map(|&s| (s % 4) as u8).collect();
     ctx.set_ty("QVector");
     ctx.note_input(&q, q.len() > 1000);
-    for path in 0..2u8 {
-        let (t, heap) = measured(|| if path == 0 { q.iter().copied().collect::<QVector>() } else { q.iter().copied().filter(|_| true).collect::<QVector>() });
+    for path in 0..5u8 {
+        let (t, heap) = measured(|| match path {
+            0 => q.iter().copied().collect::<QVector>(),
+            1 => q.iter().copied().filter(|_| true).collect::<QVector>(),
+            k => mc::iterops::hinted(q.clone(), k - 1).collect::<QVector>(),
+        });
         match prop {
             "C14" => check_le(ctx, "retained bits", format!("QVector path {path}: n={}", q.len()), 8.0 * (heap + std::mem::size_of_val(&t)) as f64, 1.01 * 2.0 * q.len() as f64 + 8.0 * 512.0),
             "C16" => check_reported(ctx, &t, heap, 1, 0, &format!("QVector (n={}, path {path})", q.len())),
@@ -365,7 +386,7 @@ fn run_bin<X: BinRS>(ctx: &mut Ctx, prop: &str, gen: &BitGen) {
     ctx.set_ty(X::NAME);
     ctx.note_input(&bits, bits.len() > 1000);
     let n = bits.len() as f64;
-    for path in 0..3u8 {
+    for path in 0..7u8 {
         if path == 2 && bits.last() != Some(&true) {
             continue;
         }
@@ -373,7 +394,10 @@ fn run_bin<X: BinRS>(ctx: &mut Ctx, prop: &str, gen: &BitGen) {
             0 => X::new_(bits.iter().copied().collect::<BitVector>()),
             1 => X::from(BitVector::from(bits.iter().copied().collect::<BitVectorMut>())),
             // the bit vector built from the positions of the ones
-            _ => X::new_(ones.iter().copied().collect::<BitVector>()),
+            2 => X::new_(ones.iter().copied().collect::<BitVector>()),
+            // collected from iterators whose size hint is unknown / a loose upper bound / a loose lower bound
+            3 => X::new_(bits.iter().copied().filter(|_| true).collect::<BitVector>()),
+            k => X::new_(mc::iterops::hinted(bits.clone(), k - 3).collect::<BitVector>()),
         });
         match prop {
             "C14" => {
@@ -460,7 +484,16 @@ fn grid_lengths(th: bool) -> Vec<usize> {
         if k % 3 == 0 {
             v.push(3 * (1 << k) / 2 + 1);
         }
+        // between the powers of two: a growth policy that keeps "a little" spare capacity shows just above the
+        // fraction of the capacity where it stops shrinking (9/16, 5/8, 3/4, 7/8, 8/9, 15/16 of 2^k, plus one line)
+        if k % 3 == 0 || th {
+            for (num, den) in [(9usize, 16usize), (5, 8), (3, 4), (7, 8), (8, 9), (15, 16)] {
+                v.push(((1usize << k) * num).div_ceil(den) + 257);
+            }
+        }
     }
+    v.sort_unstable();
+    v.dedup();
     v
 }
 
@@ -575,9 +608,26 @@ fn enumerate(args: &Args) -> Vec<SpCase> {
                 }
             }
         }
+        // a frequent symbol whose value needs 17 / 20 bits (next to small rare ones, and the reverse)
+        for freqs in [vec![1000u32, 100, 100, 1, 1, 1, 1], vec![1, 1, 1, 1, 100, 100, 1000], vec![300, 300, 300, 300, 20, 20, 20, 20, 20, 1, 1, 1, 1, 1, 1, 1, 1]] {
+            for vm in ["hbigfirst17", "hbiglast17", "hbigfirst20", "hbiglast20"] {
+                for &al in &aliases {
+                    v.push(SpCase::Tree { alias: al.into(), elem: if vm.ends_with("20") { "u64" } else { "u32" }.into(), gen: Gen::Huff { freqs: freqs.clone(), arr: 2 }, vmap: vm.into() });
+                }
+            }
+        }
         // construction histories: the same counts handed to the symbols in another order, built one after
         // the other on the same thread (all ordered pairs of three assignments, incl. the same one twice)
-        for base in [vec![64u32, 128, 256, 512, 1024, 2048, 4096, 8192], vec![40, 40, 40, 40, 40, 40, 40, 20000], vec![1000, 2000, 7000], vec![16, 48, 144, 432, 1296, 3888, 11664]] {
+        // (counts large enough for the level data to dominate the additive per-level and table terms of the bound)
+        for base in [
+            vec![64u32, 128, 256, 512, 1024, 2048, 4096, 8192],
+            vec![40, 40, 40, 40, 40, 40, 40, 20000],
+            vec![1000, 2000, 7000],
+            vec![16, 48, 144, 432, 1296, 3888, 11664],
+            vec![1024, 2048, 4096, 8192, 16384, 32768, 65536, 131072],
+            vec![500, 500, 500, 500, 500, 500, 500, 250000],
+            vec![4096, 1024, 1024, 1024, 256, 256, 256, 64, 64, 64, 16, 16, 16, 4, 4, 4].iter().map(|&x: &u32| x * 32).collect(),
+        ] {
             let mut rev = base.clone();
             rev.reverse();
             let mut rot = base.clone();
